@@ -896,6 +896,9 @@ impl RoomAuthorisations {
         if node_insert.room_id.is_some() {
             return Err(Error::ForbiddenRoomId("sys.Authorisation".to_string()));
         }
+        //creating an authorisation requires a room admin: peers refuse it otherwise (prepare_new_room)
+        let new_authorisation = node_insert.old_node.is_none()
+            && !room.authorisations.contains_key(&node_insert.id);
         //verify that the passed authorisation belongs to the room
         let authorisation = match &node_insert.node {
             Some(_) => match room.get_auth_mut(&node_insert.id) {
@@ -921,7 +924,7 @@ impl RoomAuthorisations {
         };
 
         let mut need_user_admin = false;
-        let mut need_room_admin = false;
+        let mut need_room_admin = new_authorisation;
 
         for entry in &insert_entity.sub_nodes {
             match entry.0.as_str() {
